@@ -18,10 +18,12 @@ from translator import py2coq
 LEAVES = {
     ('performance_model',): [(0, 'performance/sample_performance_model.toml'),
                              (1, 'performance/random_test_ptf.toml'),
-                             (98, 'performance/does_not_exist.toml')],
+                             (98, 'performance/does_not_exist.toml'),
+                             (96, None)],        # None (keyword arguments only): a required path -> invalid
     ('engine_file',): [(0, 'engines/sample_edb.xlsx'), (98, 'engines/no_such_edb.xlsx')],
     ('weather', 'use_weather'): [(1, True), (0, False), (99, [1, 2])],
-    ('weather', 'weather_data_dir'): [(0, 'weather'), (98, 'no_such_weather_dir')],
+    ('weather', 'weather_data_dir'): [(0, 'weather'), (98, 'no_such_weather_dir'),
+                                      (97, None)],   # None (keyword arguments only): documented, valid
     ('emissions', 'co2_enabled'): [(1, True), (0, False), (99, [3])],
     ('emissions', 'sox_enabled'): [(1, True), (0, False)],
     ('emissions', 'apu_enabled'): [(1, True), (0, False)],
@@ -34,6 +36,8 @@ SECTIONS = ('weather', 'emissions')
 
 def encode_default(path, v):
     for code, pv in LEAVES.get(path, []):
+        if pv is None:
+            continue
         if (isinstance(pv, str) and isinstance(v, str) and pv.lower() == v.lower()) or (pv is v) or \
                 (not isinstance(pv, (str, bool)) and pv == v):
             return code
@@ -124,7 +128,7 @@ def classify(eff, defaults):
                 kind = 'FkField'
             elif isinstance(v, dict):
                 walk(v, d.get(k, {}) if isinstance(d, dict) else {}, p)
-            elif v == 99:
+            elif v in (99, 96):
                 kind = 'FkField'
             elif v == 98 and kind != 'FkField':
                 kind = 'FkPath'
@@ -178,6 +182,7 @@ def impl_run(chk: Check, ops, idx):
     from AEIC.config import Config, config
     Config.reset()
     outs = []
+    written: set = set()
     for j, op in enumerate(ops):
         k = op['op']
         try:
@@ -189,8 +194,11 @@ def impl_run(chk: Check, ops, idx):
                     if op.get('bad_toml'):
                         cf.write_text('this is = = not toml [[[\n')
                 elif op['use_file']:
-                    cf = chk.tmp / f'cfg_{idx}_{j}.toml'
-                    cf.write_text(toml_text(to_python_data(op['file'])))
+                    fid = op.get('file_id')
+                    cf = chk.tmp / (f'cfg_{idx}_f{fid}.toml' if fid is not None else f'cfg_{idx}_{j}.toml')
+                    if cf not in written:    # the same file (same path, untouched) for every load that names it
+                        cf.write_text(toml_text(to_python_data(op['file'])))
+                        written.add(cf)
                 Config.load(config_file=cf, **kwargs)
                 outs.append('OkUnit')
             elif k == 'reset':
@@ -234,7 +242,10 @@ def encode_impl(path, v):
     if path not in LEAVES:
         return 'node' if hasattr(v, 'model_fields') or hasattr(type(v), 'model_fields') else 0
     for code, pv in LEAVES[path]:
-        if isinstance(pv, bool):
+        if pv is None:
+            if v is None:
+                return code
+        elif isinstance(pv, bool):
             if v is pv:
                 return code
         elif isinstance(pv, str):
@@ -246,13 +257,17 @@ def encode_impl(path, v):
 
 # ---- generation --------------------------------------------------------------
 
-def gen_tree(rng, p_leaf=0.35, allow_bad=0.0, allow_shape=0.0):
+def gen_tree(rng, p_leaf=0.35, allow_bad=0.0, allow_shape=0.0, allow_none=False):
     t: dict = {}
     for path, vals in LEAVES.items():
         if rng.random() > p_leaf:
             continue
         good = [c for c, _ in vals if c < 90]
-        bad = [c for c, _ in vals if c >= 90]
+        bad = [c for c, _ in vals if c >= 98]
+        if allow_none and rng.random() < 0.25:
+            nones = [c for c, _ in vals if c in (96, 97)]
+            if nones:
+                good, bad = nones, nones
         code = rng.choice(bad) if bad and rng.random() < allow_bad else rng.choice(good)
         node = t
         for k in path[:-1]:
@@ -269,6 +284,7 @@ def gen_tree(rng, p_leaf=0.35, allow_bad=0.0, allow_shape=0.0):
 def gen_history(rng, defaults):
     n = rng.randint(2, 12)
     ops = []
+    pool: list = []          # configuration files of this history (a file may be loaded several times)
     for _ in range(n):
         r = rng.random()
         if r < 0.42:
@@ -276,11 +292,20 @@ def gen_history(rng, defaults):
             bad = 0.0 if mode < 0.5 else 0.35
             shape = 0.08 if mode >= 0.5 else 0.0
             use_file = rng.random() < 0.6
-            file = gen_tree(rng, 0.35, bad, shape) if use_file else {}
-            kwargs = gen_tree(rng, 0.3, bad, shape)
+            file_id = None
+            if use_file and pool and rng.random() < 0.55:
+                file_id = rng.randrange(len(pool))            # load the SAME, unmodified file again
+                file = pool[file_id]
+            elif use_file:
+                file = gen_tree(rng, 0.35, bad, shape)
+                pool.append(file)
+                file_id = len(pool) - 1
+            else:
+                file = {}
+            kwargs = gen_tree(rng, 0.3, bad, shape, allow_none=True)
             eff = overlay(defaults, overlay(file, kwargs))
             fk = classify(eff, defaults)
-            op = {'op': 'load', 'file': file, 'kwargs': kwargs, 'use_file': use_file, 'fk': fk}
+            op = {'op': 'load', 'file': file, 'kwargs': kwargs, 'use_file': use_file, 'fk': fk, 'file_id': file_id}
             if rng.random() < 0.09:
                 op['fk'] = 'FkOpen'
                 op['bad_toml'] = rng.random() < 0.5
